@@ -254,25 +254,30 @@ def ck_accumulate(args, res, exc):
     return True
 
 
-def in_reduce(tier):
-    N = T(tier, 64, 512)
-    for n in range(0, N + 1):
-        for init in INITS:
-            for kind in (KINDS if n <= 20 or n in (31, 32, 33, 63, 64, 65) else KINDS[:4]):
-                yield (n, init, kind)
+def _kinds(n):
+    if n <= 20 or n in (31, 32, 33, 63, 64, 65): return KINDS
+    if n <= 64: return KINDS[:4]
+    return (KINDS[n % 4],)               # large n: one kind of iterable per n (list, tuple, generator, iterator in turn)
 
 
-def in_accumulate(method):
+def in_reduce(lo, hi):
     def gen(tier):
-        N = T(tier, 64, 512)
-        for n in range(0, N + 1):
+        for n in range(lo, hi + 1):
             for init in INITS:
-                for kind in (KINDS if n <= 20 or n in (31, 32, 33, 63, 64, 65) else KINDS[:4]):
+                for kind in _kinds(n): yield (n, init, kind)
+    return gen
+
+
+def in_accumulate(method, lo, hi):
+    def gen(tier):
+        for n in range(lo, hi + 1):
+            for init in INITS:
+                for kind in _kinds(n):
                     if method in METHODS:
                         yield (n, init, kind, method, 0)
                         if kind == 'list': yield (n, init, kind, method, 1)
                     else:
-                        for m in ('default', 'default-None'):
+                        for m in (('default', 'default-None') if n <= 64 else ('default',)):
                             for np in (0, 1):
                                 yield (n, init, kind, m, np)
     return gen
@@ -288,17 +293,29 @@ def in_badmethod(tier):
 
 
 _acc = lambda n, init, kind, method, no_prss: call_accumulate(n, init, kind, method, no_prss)
-NATIVE = {n.name: n for n in [
-    Native('reduce', 'mpyc.mpctools.reduce', call_reduce, ck_reduce, in_reduce,
-           'free monoid model: n items 0..64 (thorough 0..512) x initial in {absent, None, element} x iterable kind '
-           '(list, tuple, generator, iterator; dict_keys, deque for n <= 20 and n near powers of two)'),
-    Native('accumulate_brent_kung', 'mpyc.mpctools.accumulate', _acc, ck_accumulate, in_accumulate('Brent-Kung'),
-           "method='Brent-Kung': n items 0..64 (thorough 0..512) x initial x iterable kind, no_prss both ways for lists"),
-    Native('accumulate_sklansky', 'mpyc.mpctools.accumulate', _acc, ck_accumulate, in_accumulate('Sklansky'),
-           "method='Sklansky': n items 0..64 (thorough 0..512) x initial x iterable kind, no_prss both ways for lists"),
-    Native('accumulate_default', 'mpyc.mpctools.accumulate', _acc, ck_accumulate, in_accumulate('default'),
-           'method omitted and method=None: n items 0..64 (thorough 0..512) x initial x iterable kind x runtime.options.no_prss in {False, True}'),
-    Native('accumulate_bad_method', 'mpyc.mpctools.accumulate', _acc, ck_accumulate, in_badmethod,
-           'unknown method values (15 of them: near-miss spellings, non-strings) x n in {0,1,2,3,8,31,32,33} x initial x no_prss'),
-]}
+RANGES = [(0, 64, False), (65, 200, True), (201, 320, True), (321, 420, True), (421, 512, True)]      # (lo, hi, thorough only)
+_lst = []
+for _lo, _hi, _th in RANGES:
+    _sfx = '' if not _th else f':{_lo}-{_hi}'
+    _dom = (f'free monoid model: n items {_lo}..{_hi} x initial in {{absent, None, element}} x iterable kind (list, tuple, generator, iterator; dict_keys, deque for n <= 20 and n near '
+            'powers of two; one kind per n for n > 64)')
+    _new = [
+        Native('reduce' + _sfx, 'mpyc.mpctools.reduce', call_reduce, ck_reduce, in_reduce(_lo, _hi), _dom),
+        Native('accumulate_brent_kung' + _sfx, 'mpyc.mpctools.accumulate', _acc, ck_accumulate, in_accumulate('Brent-Kung', _lo, _hi),
+               "method='Brent-Kung', " + _dom + ', no_prss both ways for lists'),
+        Native('accumulate_sklansky' + _sfx, 'mpyc.mpctools.accumulate', _acc, ck_accumulate, in_accumulate('Sklansky', _lo, _hi),
+               "method='Sklansky', " + _dom + ', no_prss both ways for lists'),
+        Native('accumulate_default' + _sfx, 'mpyc.mpctools.accumulate', _acc, ck_accumulate, in_accumulate('default', _lo, _hi),
+               'method omitted (and method=None for n <= 64), ' + _dom + ' x runtime.options.no_prss in {False, True}'),
+    ]
+    for _n in _new: _n.thorough_only = _th
+    _lst += _new
+_bad = Native('accumulate_bad_method', 'mpyc.mpctools.accumulate', _acc, ck_accumulate, in_badmethod,
+              'unknown method values (15 of them: near-miss spellings, non-strings) x n in {0,1,2,3,8,31,32,33} x initial x no_prss')
+_bad.thorough_only = False
+NATIVE = {n.name: n for n in _lst + [_bad]}
 for _n in NATIVE.values(): _n.module = 'contracts.mpctools'
+
+
+def native_names(tier):
+    return [n.name for n in NATIVE.values() if tier != 'quick' or not n.thorough_only]
